@@ -97,9 +97,46 @@ pub fn guarded<T>(f: impl FnOnce() -> T) -> Result<T, String> {
     catch_unwind(AssertUnwindSafe(f)).map_err(|_| last_panic())
 }
 
+thread_local! {
+    static ARG_ROUTE: std::cell::Cell<u8> = const { std::cell::Cell::new(0) };
+}
+
+/// Select how the next argument maps on this thread are constructed (0 = JSON text as given,
+/// 1 = JSON with reversed key order, 2 = printed as `mod param {..}` and parsed back,
+/// 3 = rebuilt through a large-capacity HashMap in sorted insertion order).  All routes give an
+/// equal `Arguments`: "the same arguments" supplied by a different history.
+pub fn set_arg_route(r: u8) {
+    ARG_ROUTE.with(|c| c.set(r));
+}
+
 /// Parse an argument map given as JSON text (`{}` = no arguments).
 pub fn parse_args(json: &str) -> Result<Arguments, String> {
-    serde_json::from_str::<Arguments>(json).map_err(|e| e.to_string())
+    use simfony::parse::ParseFromStr;
+    let base = serde_json::from_str::<Arguments>(json).map_err(|e| e.to_string())?;
+    let route = ARG_ROUTE.with(|c| c.get());
+    let alt: Option<Arguments> = match route {
+        1 => serde_json::from_str::<serde_json::Value>(json).ok().and_then(|v| {
+            let obj = v.as_object()?;
+            let parts: Vec<String> = obj.iter().rev().map(|(k, v)| format!("{}: {}", serde_json::to_string(k).unwrap(), v)).collect();
+            serde_json::from_str::<Arguments>(&format!("{{{}}}", parts.join(", "))).ok()
+        }),
+        2 => Arguments::parse_from_str(&base.to_string()).ok(),
+        3 => {
+            let mut names: Vec<_> = base.iter().map(|(n, v)| (n.clone(), v.clone())).collect();
+            names.sort_by(|a, b| a.0.cmp(&b.0));
+            let mut m = std::collections::HashMap::with_capacity(1024);
+            for (n, v) in names {
+                m.insert(n, v);
+            }
+            Some(Arguments::from(m))
+        }
+        _ => None,
+    };
+    // a route that does not reproduce an equal map is not used (that would be C15's business)
+    match alt {
+        Some(a) if a == base => Ok(a),
+        _ => Ok(base),
+    }
 }
 
 pub fn parse_witness(json: &str) -> Result<WitnessValues, String> {
